@@ -24,7 +24,8 @@ template <typename IntegralN, typename IntegralK>
 static constexpr auto round_up(const IntegralN& n,
                                const IntegralK& k) -> decltype(n + k)
 {
-    return ((n + k - 1) / k) * k;
+    // written without n + k - 1, which overflows for n near the type maximum
+    return (n / k + (n % k > 0)) * k;
 }
 
 //! \}
